@@ -276,7 +276,10 @@ class ndarray:
         rows = self._rows()
         if d.name != self.dtype.name:
             rows = rows.map_src(lambda s: cast_src(s, d.name))
-        return ndarray(d, self._shape, rows)
+        res = ndarray(d, self._shape, rows)
+        if self.ndim >= 2 and self.flags.f_contiguous and not self.flags.c_contiguous:
+            res.flags.c_contiguous, res.flags.f_contiguous = False, True      # order='K' keeps F layout
+        return res
 
     def copy(self, order='C'):
         self._check_alive()
@@ -439,7 +442,18 @@ def _getitem(a, index):
             raise ModelGap('slice step')
         n = a._shape[0]
         s, e = clamp_slice(_as_int(index.start), _as_int(index.stop), n)
-        return _make_view(a, ndarray(a.dtype, (e - s,) + a._shape[1:], rows.cut(s, e)))
+        res = ndarray(a.dtype, (e - s,) + a._shape[1:], rows.cut(s, e))
+        if a.ndim >= 2 and _prod(a._shape[1:]) == 1:
+            res.flags.c_contiguous = res.flags.f_contiguous = True     # (n, 1, ..) is both (relaxed strides)
+        elif a.ndim >= 2:
+            # a block of rows of a C-contiguous array is C-contiguous; of an F-contiguous array it is
+            # F-contiguous only if it holds ALL rows; of a strided array it is neither
+            res.flags.c_contiguous = a.flags.c_contiguous or (e - s <= 1)     # a single row is C-contiguous
+            res.flags.f_contiguous = a.flags.f_contiguous and not a.flags.c_contiguous and (e - s == n)
+        else:
+            res.flags.c_contiguous = a.flags.c_contiguous
+            res.flags.f_contiguous = a.flags.f_contiguous
+        return _make_view(a, res)
     if isinstance(index, bool):
         raise ModelGap('bool index')
     if isinstance(index, (int, int64)) or (isinstance(index, ndarray) and index.ndim == 0):
